@@ -36,7 +36,7 @@ ASSUMPTIONS = [
   'pre-emption is modelled at synchronisation calls, source pulls and (line-level runs) source lines of prefetch_iterator.py; not between bytecodes',
   'after close() only order/uniqueness of delivered items and termination are asserted (the property says nothing about close)',
 ]
-PROBES = ['producer_done_before_ctor_returned', 'error_first_item', 'consumer_blocked', 'producer_blocked_full', 'close_while_producer_waiting', 'line_level_runs', 'ptd_runs', 'psu_padded', 'helpers_runs', 'source_reuses_buffer']
+PROBES = ['producer_done_before_ctor_returned', 'error_first_item', 'consumer_blocked', 'producer_blocked_full', 'close_while_producer_waiting', 'line_level_runs', 'ptd_runs', 'psu_padded', 'helpers_runs', 'source_reuses_buffer', 'psu_variants']
 
 _flax = None
 
@@ -409,10 +409,44 @@ def _check_psu(k, batch, res):
     assert x.shape[0] == d, x.shape
     return {'y': x * 3 + params, 'z': x.sum(-1)}
 
-  w = jax_utils.pad_shard_unpad(fn)
-  out = w(7, batch, min_device_batch=k['min_device_batch'])
-  want = {'y': batch * 3 + 7, 'z': batch.sum(-1)}
   b = batch.shape[0]
+  variant = (b + d + (k['min_device_batch'] or 0)) % 4
+  mdb = k['min_device_batch']
+  if variant == 1:
+    # two batched positional pytrees, nothing static
+    def fn2(x, t):
+      assert x.shape[0] == d and t['m'].shape[0] == d
+      return {'y': x * 3 + t['m'], 'z': x.sum(-1)}
+
+    out = jax_utils.pad_shard_unpad(fn2, static_argnums=())(batch, {'m': batch + 1}, min_device_batch=mdb)
+    want = {'y': batch * 3 + batch + 1, 'z': batch.sum(-1)}
+  elif variant == 2:
+    # keyword arguments: one static by name, one batched
+    def fn3(params, x, *, scale, mask):
+      assert mask.shape[0] == d and scale == 2
+      return {'y': x * scale + params, 'z': (x * mask).sum(-1)}
+
+    out = jax_utils.pad_shard_unpad(fn3, static_argnames=('scale',))(7, batch, scale=2, mask=batch * 0 + 1, min_device_batch=mdb)
+    want = {'y': batch * 2 + 7, 'z': batch.sum(-1)}
+  elif variant == 3:
+    # static_return: the (device, per-device-batch, ...) result is handed back as is
+    def fn4(params, x):
+      return {'n': np.asarray(x.shape[:2])}
+
+    out = jax_utils.pad_shard_unpad(fn4, static_return=True)(7, batch, min_device_batch=mdb)
+    db = -(-b // d)
+    if mdb and db < mdb:
+      db = mdb
+    if np.asarray(out['n']).tolist() != [d, db]:
+      raise Violation('pad-shard-unpad-mismatch', f'batch {b} devices {d} min_device_batch {mdb}: wrapped function saw shape {np.asarray(out["n"]).tolist()}, expected {[d, db]}')
+    res.probe('psu_variants')
+    return
+  else:
+    w = jax_utils.pad_shard_unpad(fn)
+    out = w(7, batch, min_device_batch=mdb)
+    want = {'y': batch * 3 + 7, 'z': batch.sum(-1)}
+  if variant:
+    res.probe('psu_variants')
   if b % d or (k['min_device_batch'] and -(-b // d) < k['min_device_batch']):
     res.probe('psu_padded')
   for key in want:
